@@ -1,9 +1,300 @@
--- line-protocol handler of property C09 (stub: nothing modelled yet)
+-- line-protocol handler of property C09 (FFT, interpolation, LDE); mirrors harness/src/bin/c09.rs
 import Winter.Drv.Util
+import Winter.Model.Field
+import Winter.Model.Fft
 
 namespace Drv.C09
+open Model Model.Fft
 
-def handle (_toks : List String) : String := "-"
+def field? : String → Option FieldImpl
+  | "f64" => some F64.impl
+  | "f62" => some F62.impl
+  | "f128" => some F128.impl
+  | _ => none
+
+/-- the code's `MAX_LOOP` (math/src/fft/fft_inputs.rs) -/
+def maxLoop : Nat := 256
+
+/-! ### SplitMix64 and the output fold (same as the harness) -/
+
+def mask64 : Nat := 18446744073709551615
+
+def smNext (s : Nat) : Nat × Nat :=
+  let s := (s + 0x9E3779B97F4A7C15) % 18446744073709551616
+  let z := s
+  let z := ((z ^^^ (z >>> 30)) * 0xBF58476D1CE4E5B9) % 18446744073709551616
+  let z := ((z ^^^ (z >>> 27)) * 0x94D049BB133111EB) % 18446744073709551616
+  (z ^^^ (z >>> 31), s)
+
+def fold (h v : Nat) : Nat :=
+  let h := ((h ^^^ (v % 18446744073709551616)) * 0x100000001b3) % 18446744073709551616
+  ((h ^^^ (v / 18446744073709551616 % 18446744073709551616)) * 0x100000001b3) % 18446744073709551616
+
+def fold0 : Nat := 0xcbf29ce484222325
+
+/-- one base-field word: one draw for the 64-bit fields, two (hi, lo) for the 128-bit field -/
+def draw (F : FieldImpl) (s : Nat) : Nat × Nat :=
+  if F.wordBits == 128 then
+    let (hi, s) := smNext s
+    let (lo, s) := smNext s
+    (hi * 18446744073709551616 + lo, s)
+  else smNext s
+
+inductive Deg where
+  | rand
+  | zero
+  | exact (k : Nat)
+
+def parseDeg (s : String) : Option Deg :=
+  match s with
+  | "r" => some .rand
+  | "z" => some .zero
+  | _ => s.toNat?.map .exact
+
+/-- canonical coordinates of `n` elements of extension degree `d`, element-major -/
+def genCoords (F : FieldImpl) (seed n d : Nat) (deg : Deg) : Array Nat :=
+  let v : Array Nat := ((List.range (n * d)).foldl (fun (st : Array Nat × Nat) _ =>
+    let (w, s) := draw F st.2
+    (st.1.push (w % F.M), s)) (Array.mkEmpty (n * d), seed)).1
+  match deg with
+  | .rand => v
+  | .zero => v.map (fun _ => 0)
+  | .exact k =>
+    let v := v.mapIdx (fun i x => if i ≥ (k + 1) * d then 0 else x)
+    if k < n ∧ (List.range d).all (fun c => v.getD (k * d + c) 0 == 0) then v.setIfInBounds (k * d) 1 else v
+
+/-- elements as arrays of `d` raw words -/
+def toElems (F : FieldImpl) (d : Nat) (coords : Array Nat) : Array (Array Nat) :=
+  (List.range (coords.size / d)).toArray.map fun i =>
+    (List.range d).toArray.map fun c => F.new (coords.getD (i * d + c) 0)
+
+def coordsOf (F : FieldImpl) (v : Array (Array Nat)) : Array Nat :=
+  v.foldl (fun acc e => acc ++ e.map F.asInt) (Array.mkEmpty (v.size * 3))
+
+def summary (coords : Array Nat) (d : Nat) : String :=
+  let n := coords.size / (max d 1)
+  let h := coords.foldl fold fold0
+  let head := s!"{n} {h}"
+  if n = 0 then head
+  else
+    let idx := [0, 1 % n, n / 2, n - 1]
+    idx.foldl (fun s i => (List.range d).foldl (fun s c => s ++ s!" {coords.getD (i * d + c) 0}") s) head
+
+/-! ### operation records on raw words -/
+
+def baseOps (F : FieldImpl) : BaseOps Nat where
+  one := F.new 1
+  mul := F.mul
+  exp := F.exp
+  inv := fun x => match F.inv x with
+    | .done r => some r
+    | .out => none
+  ofNat := F.new
+  isZero := fun x => F.eq x (F.new 0)
+  twoAdicity := F.twoAdicity
+  rootOfUnity := F.rootOfUnity
+
+/-- an element of extension degree `d` is the array of its `d` base coordinates: `+`, `-`, `mul_base`
+    and multiplication by an embedded base element act coordinate-wise -/
+def elemOps (F : FieldImpl) : Ops Nat (Array Nat) :=
+  rowOps F.add F.sub F.mul (fun x => F.eq x (F.new 0))
+
+def parseOff (F : FieldImpl) (s : String) : Option Nat :=
+  if s == "g" || s == "g!" then some F.generator else s.toNat?
+
+def res (F : FieldImpl) (d : Nat) : Option (Array (Array Nat)) → String
+  | none => "panic"
+  | some v => summary (coordsOf F v) d
+
+/-- sizes above which the model is not run (`-`): the quadratic-free model is still much slower than Rust -/
+def tooBig (n blowup cols : Nat) : Bool := n > 1024 || n * blowup * cols > 4096
+
+def handleF (F : FieldImpl) (d : Nat) : List String → String
+  | ["eval", n, twn, seed, deg] =>
+    match n.toNat?, twn.toNat?, seed.toNat?, parseDeg deg with
+    | some n, some twn, some seed, some deg =>
+      if tooBig n 1 d || twn > 2048 then "-" else
+      let p := toElems F d (genCoords F seed n d deg)
+      match getTwiddles (baseOps F) twn with
+      | none => "panic"
+      | some tw => res F d (evaluatePoly (elemOps F) (baseOps F) maxLoop p tw)
+    | _, _, _, _ => "bad-op"
+  | ["evalo", n, twn, seed, deg, blowup, off] =>
+    match n.toNat?, twn.toNat?, seed.toNat?, parseDeg deg, blowup.toNat?, parseOff F off with
+    | some n, some twn, some seed, some deg, some blowup, some off =>
+      if tooBig n blowup d || twn > 2048 then "-" else
+      let p := toElems F d (genCoords F seed n d deg)
+      match getTwiddles (baseOps F) twn with
+      | none => "panic"
+      | some tw => res F d (evaluatePolyWithOffset (elemOps F) (baseOps F) maxLoop p tw (F.new off) blowup)
+    | _, _, _, _, _, _ => "bad-op"
+  | ["interp", n, twn, seed] =>
+    match n.toNat?, twn.toNat?, seed.toNat? with
+    | some n, some twn, some seed =>
+      if tooBig n 1 d || twn > 2048 then "-" else
+      let v := toElems F d (genCoords F seed n d .rand)
+      match getInvTwiddles (baseOps F) twn with
+      | none => "panic"
+      | some itw => res F d (interpolatePoly (elemOps F) (baseOps F) maxLoop v itw)
+    | _, _, _ => "bad-op"
+  | ["interpo", n, twn, seed, off] =>
+    match n.toNat?, twn.toNat?, seed.toNat?, parseOff F off with
+    | some n, some twn, some seed, some off =>
+      if tooBig n 1 d || twn > 2048 then "-" else
+      let v := toElems F d (genCoords F seed n d .rand)
+      match getInvTwiddles (baseOps F) twn with
+      | none => "panic"
+      | some itw => res F d (interpolatePolyWithOffset (elemOps F) (baseOps F) maxLoop v itw (F.new off))
+    | _, _, _, _ => "bad-op"
+  | ["rt", n, seed, deg, off] =>
+    match n.toNat?, seed.toNat?, parseDeg deg, parseOff F off with
+    | some n, some seed, some deg, some off =>
+      if tooBig n 2 d then "-" else
+      let p := toElems F d (genCoords F seed n d deg)
+      match getTwiddles (baseOps F) n, getInvTwiddles (baseOps F) n with
+      | some tw, some itw =>
+        res F d ((evaluatePolyWithOffset (elemOps F) (baseOps F) maxLoop p tw (F.new off) 1).bind fun ev =>
+          interpolatePolyWithOffset (elemOps F) (baseOps F) maxLoop ev itw (F.new off))
+      | _, _ => "panic"
+    | _, _, _, _ => "bad-op"
+  | ["deg", n, seed, deg, off] =>
+    match n.toNat?, seed.toNat?, parseDeg deg, parseOff F off with
+    | some n, some seed, some deg, some off =>
+      if tooBig n 2 d then "-" else
+      let p := toElems F d (genCoords F seed n d deg)
+      match getTwiddles (baseOps F) n with
+      | none => "panic"
+      | some tw =>
+        match (evaluatePolyWithOffset (elemOps F) (baseOps F) maxLoop p tw (F.new off) 1).bind fun ev =>
+          inferDegree (elemOps F) (baseOps F) maxLoop ev (F.new off) with
+        | none => "panic"
+        | some k => toString k
+    | _, _, _, _ => "bad-op"
+  | ["fft", n, twn, seed] =>
+    match n.toNat?, twn.toNat?, seed.toNat? with
+    | some n, some twn, some seed =>
+      if tooBig n 1 d || twn > 2048 then "-" else
+      let p := toElems F d (genCoords F seed n d .rand)
+      match getTwiddles (baseOps F) twn with
+      | none => "panic"
+      | some tw => res F d (fftTop (elemOps F) maxLoop tw p)
+    | _, _, _ => "bad-op"
+  | ["fftraw", n, seed, count, stride, offset] =>
+    match n.toNat?, seed.toNat?, count.toNat?, stride.toNat?, offset.toNat? with
+    | some n, some seed, some count, some stride, some offset =>
+      if tooBig n 1 d then "-" else
+      let p := toElems F d (genCoords F seed n d .rand)
+      match getTwiddles (baseOps F) n with
+      | none => "panic"
+      | some tw => res F d (fftInPlace (elemOps F) maxLoop tw (n + 1) count stride offset p)
+    | _, _, _, _, _ => "bad-op"
+  | ["perm", n, seed] =>
+    match n.toNat?, seed.toNat? with
+    | some n, some seed =>
+      if tooBig n 1 d then "-" else
+      let p := toElems F d (genCoords F seed n d .rand)
+      -- the harness permutes twice (involution check); a panic of either call is the outcome
+      match permute p with
+      | none => "panic"
+      | some once => match permute once with
+        | none => "panic"
+        | some _ => res F d (some once)
+    | _, _ => "bad-op"
+  | ["tw", n] =>
+    match n.toNat? with
+    | some n =>
+      if n > 4096 ∧ isPow2 n ∧ Nat.log2 n ≤ F.twoAdicity then "-" else
+      match getTwiddles (baseOps F) n, getInvTwiddles (baseOps F) n with
+      | some tw, some itw => s!"{summary (tw.map F.asInt) 1} {summary (itw.map F.asInt) 1}"
+      | _, _ => "panic"
+    | _ => "bad-op"
+  | ["rowmat", n, cols, seed, blowup, off, w] =>
+    match n.toNat?, cols.toNat?, seed.toNat?, blowup.toNat?, parseOff F off, w.toNat? with
+    | some n, some cols, some seed, some blowup, some offv, some w =>
+      if tooBig n blowup (cols * d) then "-" else
+      -- ColMatrix::new: at least one column, more than one row, a power of two
+      if cols = 0 ∨ n ≤ 1 ∨ !isPow2 n then "panic" else
+      -- base-field columns of the column-major matrix: column c, coordinate e ↦ base column c*d + e
+      let baseCols : Array (Array Nat) := (List.range (cols * d)).toArray.map fun bc =>
+        let coords := genCoords F ((seed + bc / d) % 18446744073709551616) n d .rand
+        (List.range n).toArray.map fun r => F.new (coords.getD (r * d + bc % d) 0)
+      let B := baseOps F
+      let rm : Option (RowMat Nat) :=
+        if off == "g!" then
+          -- RowMatrix::evaluate_polys::<N>(polys, blowup): offsets first, then the twiddles
+          match evaluationOffsets B n blowup (F.new F.generator) with
+          | none => none
+          | some offsets =>
+            match getTwiddles B n with
+            | none => none
+            | some tw => rowMatrixFromPolys (elemOps F) F.mul (F.new 0) maxLoop w baseCols n offsets tw
+        else
+          match getTwiddles B n with
+          | none => none
+          | some tw => evaluatePolysOver (elemOps F) B (F.new 0) maxLoop w baseCols n tw blowup (F.new offv)
+      match rm with
+      | none => "panic"
+      | some rm =>
+        let rows := rm.data.size / rm.rowWidth
+        let cells : Option (Array Nat) := (List.range rows).foldl (fun acc r =>
+          match acc, rm.row r with
+          | some acc, some row => some (acc ++ row.map F.asInt)
+          | _, _ => none) (some (Array.mkEmpty (rows * cols * d)))
+        match cells with
+        | none => "panic"
+        | some cells =>
+          s!"{rows} {rm.elementsPerRow / d} {summary cells d} {summary (rm.data.map F.asInt) 1}"
+    | _, _, _, _, _, _ => "bad-op"
+  | ["colmat", n, cols, seed, blowup, off] =>
+    match n.toNat?, cols.toNat?, seed.toNat?, blowup.toNat?, parseOff F off with
+    | some n, some cols, some seed, some blowup, some off =>
+      if tooBig n blowup (cols * d) then "-" else
+      if cols = 0 ∨ n ≤ 1 ∨ !isPow2 n then "panic" else
+      let B := baseOps F
+      let columns : Array (Array (Array Nat)) := (List.range cols).toArray.map fun c =>
+        toElems F d (genCoords F ((seed + c) % 18446744073709551616) n d .rand)
+      -- interpolate_columns: inverse twiddles once, then every column
+      match getInvTwiddles B n with
+      | none => "panic"
+      | some itw =>
+        match columns.mapM (fun col => interpolatePoly (elemOps F) B maxLoop col itw) with
+        | none => "panic"
+        | some polys =>
+          -- StarkDomain::from_twiddles(get_twiddles(n), blowup, off); evaluate_columns_over
+          match getTwiddles B n with
+          | none => "panic"
+          | some tw =>
+            match starkDomainBlowup B tw blowup with
+            | none => "panic"
+            | some b =>
+              match polys.mapM (fun p => evaluatePolyWithOffset (elemOps F) B maxLoop p tw (F.new off) b) with
+              | none => "panic"
+              | some lde =>
+                let flatP := polys.foldl (fun acc c => acc ++ coordsOf F c) #[]
+                let flatL := lde.foldl (fun acc c => acc ++ coordsOf F c) #[]
+                s!"{n * b} {cols} {summary flatP d} {summary flatL d}"
+    | _, _, _, _, _ => "bad-op"
+  | _ => "bad-op"
+
+def handleU : List String → String
+  | ["permidx", size, index] =>
+    match size.toNat?, index.toNat? with
+    | some size, some index =>
+      match permuteIndex size index with
+      | some j => toString j
+      | none => "panic"
+    | _, _ => "bad-op"
+  | ["selfcheck", _] => "-"
+  | _ => "bad-op"
+
+def handle : List String → String
+  | "u" :: rest => handleU rest
+  | f :: d :: rest =>
+    match field? f, d.toNat? with
+    | some F, some d =>
+      if d = 0 ∨ d > 3 ∨ (F.name == "f128" ∧ d = 3) then "bad-op" else handleF F d rest
+    | _, _ => "bad-op"
+  | _ => "bad-op"
 
 end Drv.C09
 
